@@ -14,6 +14,7 @@ func init() {
 	Register("C03", func(c *Ctx) { runC03(c, true, false) })
 	Register("C03.nofault", func(c *Ctx) { runC03(c, false, false) })
 	Register("C03.file", func(c *Ctx) { runC03(c, true, true) })
+	Register("C03.ssh", func(c *Ctx) { c.sshRemote = true; runC03(c, true, false) })
 }
 
 func pickRateB(t *sim.Tape, label string, onNum, onDen int) int {
@@ -89,7 +90,31 @@ func runC03(c *Ctx, faults, fileRemote bool) {
 	h := NewHist(w, u1)
 	h.Init()
 	settings := map[string]string{}
-	if fileRemote {
+	var sshScript map[string]interface{}
+	if c.sshRemote {
+		// LFS objects travel over the pure SSH transfer protocol to a scripted
+		// peer that keeps them in a directory; Git itself uses the local path
+		store := filepath.Join(w.Root, "ssh-store")
+		os.MkdirAll(store, 0755)
+		w.SSHStores = map[string]string{remote: store}
+		w.MustGit(u1, "remote", "add", "origin", remote)
+		settings["lfs.url"] = "ssh://git@simhost/repo.git"
+		settings["lfs.ssh.automultiplex"] = []string{"false", "true"}[t.Choose(2, "multiplex")]
+		script := map[string]interface{}{"source": store, "pure": true, "chunk": []int{32768, 1000, 65516}[t.Choose(3, "packet-size")]}
+		if faults {
+			if t.Bool(1, 2, "ssh-put-faults?") {
+				script["put_faults"] = [][]string{{"ok", "status500"}, {"ok", "ok", "status403"}, {"ok", "status429"}, {"ok", "ok", "lost"}, {"ok", "die"}, {"status500", "status403", "lost", "ok"}}[t.Choose(6, "ssh-put-faults")]
+			}
+			if t.Bool(1, 3, "ssh-verify-faults?") {
+				script["verify_faults"] = [][]string{{"ok", "status500"}, {"ok", "ok", "die"}}[t.Choose(2, "ssh-verify-faults")]
+			}
+			if t.Bool(1, 4, "ssh-batch-faults?") {
+				script["batch"] = [][]string{{"status500", "ok"}, {"ok", "status500", "ok"}, {"omit-last", "ok"}}[t.Choose(3, "ssh-batch-faults")]
+			}
+		}
+		sshScript = script
+		c.Probe("ssh-remote")
+	} else if fileRemote {
 		// the remote is reached through a file:// URL: no LFS server, git-lfs's
 		// own standalone agent copies objects into <remote>/lfs/objects
 		w.FileRemotes = map[string]bool{remote: true}
@@ -108,6 +133,23 @@ func runC03(c *Ctx, faults, fileRemote bool) {
 	} {
 		settings[k] = v
 	}
+	if sshScript != nil {
+		// a peer process that dies takes its whole connection with it; which
+		// transfers share a connection is only fixed with one transfer at a time
+		if settings["lfs.concurrenttransfers"] != "1" {
+			for _, k := range []string{"put_faults", "verify_faults"} {
+				if l, ok := sshScript[k].([]string); ok {
+					for i := range l {
+						if l[i] == "die" {
+							l[i] = "status500"
+						}
+					}
+				}
+			}
+		}
+		env, _ := sshSetup(w, sshScript)
+		w.ExtraEnv = append(w.ExtraEnv, env...)
+	}
 	w.ConfigureClone(u1, settings)
 	// fetch filters configured in the pushing clone say nothing about what a push uploads
 	switch t.Choose(6, "fetch-filter-in-pushing-clone") {
@@ -121,7 +163,7 @@ func runC03(c *Ctx, faults, fileRemote bool) {
 	}
 	// the retry budget varies (with 1, a single failure exhausts an object)
 	w.MustGit(u1, "config", "lfs.transfer.maxretries", []string{"2", "1", "8"}[t.Choose(3, "maxretries")])
-	if t.Bool(1, 4, "second-remote") {
+	if !c.sshRemote && t.Bool(1, 4, "second-remote") {
 		remote2 = w.InitBare("remote2.git")
 		if fileRemote && t.Bool(2, 3, "second-remote-is-file-too") {
 			w.FileRemotes[remote2] = true
@@ -238,6 +280,14 @@ func runC03(c *Ctx, faults, fileRemote bool) {
 	// always finish with a push of everything
 	if c.Res.Class == "" {
 		doPush(c, w, h, u1, remote, remote2, allowIncomplete, nil, exempt)
+	}
+	if c.sshRemote {
+		for _, e := range readSSHLog(filepath.Join(w.Root, "ssh.log")) {
+			switch e.Kind {
+			case "put-object", "verify-object", "batch":
+				c.Probe("ssh-" + e.Kind + ":" + e.Behave)
+			}
+		}
 	}
 	c.T.Note(strings.Join(h.Ops, ";"))
 	for _, s := range w.Steps {
